@@ -220,6 +220,22 @@ def gen_module(rng, ids, knobs, with_submodule=False):
             x = gen_explicit(rng, ids, "mpiface", perm(), module_proc=True)
             ch.append(["interfaces", x])
             mps.append(x)
+    # separate module procedures implemented in the module itself: short form (`module procedure x`, kept in
+    # modprocedures) or long form (`module subroutine x(..)`, an ordinary entry of subroutines / functions);
+    # interface and implementation are one identifier and share its accessibility
+    self_impls = []
+    for _ in range(rng.choice([1, 2]) if rng.random() < knobs.get("p_self_impl", 0.3) else 0):
+        x = gen_explicit(rng, ids, "mpiface", perm(), module_proc=True)
+        ch.append(["interfaces", x])
+        if rng.random() < 0.6:
+            p = gen_proc(rng, ids, "modproc", x["perm"], dflt, knobs, prefix="mpi")
+            p["implements"] = x
+            self_impls.append(["modprocedures", p])
+        else:
+            p = gen_proc(rng, ids, "modfun" if x["isfun"] else "modsub", x["perm"], dflt, knobs, prefix="mpi")
+            p["implements"] = x
+            p["children"] = gen_args(rng, ids, dflt, n=len(x["children"])) + [c for c in p["children"] if c[0] != "args"]
+            self_impls.append(["functions" if x["isfun"] else "subroutines", p])
     for _ in range(rng.choice([0, 1, 2, 3])):
         ch.append(["variables", mk(ids, "var", "NOther", "v", perm(True), rdoc(rng))])
     if rng.random() < knobs.get("p_enum", 0.25):
@@ -233,6 +249,7 @@ def gen_module(rng, ids, knobs, with_submodule=False):
         ch.append(["namelists", nl])
     for p in procs:
         ch.append(["functions" if p["kind"] == "function" else "subroutines", p])
+    ch += self_impls
     units = [m]
     if with_submodule:
         sm = mk(ids, "submodule", "NSubmodule", "sm", "private", rdoc(rng))
@@ -499,14 +516,14 @@ def render_unit(u):
         if u.get("default"):
             out.append("  " + u["default"])
         named = [c for l, c in u["children"] if l in ("functions", "subroutines", "interfaces", "absinterfaces")
-                 and c["kind"] != "constructor"]
+                 and c["kind"] not in ("constructor", "modsub", "modfun")]
         named += [c for l, c in u["children"] if l == "types" and c.get("by_stmt")]
         for acc in ("public", "private"):
             names = [c["name"] for c in named if c["perm"] == acc and acc != dflt]
             if names:
                 out.append(f"  {acc} :: " + ", ".join(names))
         out += render_spec(u, "  ", dflt, access_ok=True)
-        procs = kids(u, "functions") + kids(u, "subroutines")
+        procs = kids(u, "functions") + kids(u, "subroutines") + kids(u, "modprocedures")
         if procs:
             out.append("contains")
             for p in procs:
